@@ -277,6 +277,8 @@ def _import_child(job, shared, barrier):
         with open(data) as fh:
             data = fh.read()
         kwargs["from_string"] = True
+    if job.get("force"):
+        kwargs["force"] = True
     t0 = time.time()
     db = gffutils.create_db(data, job["dbfn"], **kwargs)
     res = {"ok": True, "t0": t0, "t1": time.time()}
@@ -981,7 +983,49 @@ def unit_bounded_warm_parent(U):
         cases, fails, distinct=len(distinct))
 
 
+def unit_bounded_prefix_outputs(U):
+    """Separate output files are separate whatever their NAMES: runs that overwrite old outputs (force=True) in one folder,
+    where one output's name is a prefix of the others' (anno.db, anno.db.1, anno.db.2 - numbered copies next to each other),
+    started so that the prefix-named run begins while / after the others wrote theirs"""
+    W = World(20 if not U.thorough else 40, variants=(0, 1))
+    fails, cases, distinct = [], 0, set()
+    try:
+        W.solitary("gff3", 0, {})
+        total = W.life[W.key("gff3", 0, {})][2]
+        for n in ((3, 6) if not U.thorough else (3, 6, 12)):
+            for late in (0.5, 1.5, 3.0):
+                d = W.fresh("out")
+                names = ["anno.db"] + ["anno.db.%d" % i for i in range(1, n)]
+                picks = [(("gff3", "gtf")[i % 2], (i // 2) % 2, {}) for i in range(n)]
+                jobs = []
+                for i, ((fmt, v, kw), name) in enumerate(zip(picks, names)):
+                    pth = os.path.join(d, name)
+                    with open(pth, "w") as fh:
+                        fh.write("an old output that force=True is to replace")
+                    jobs.append({"fmt": fmt, "variant": v, "kwargs": kw, "data": W.inputs[(fmt, v)], "dbfn": pth, "cwd": None, "final": pth,
+                                 "offset": (late * total if i == 0 else 0.0), "from_string": False, "force": True})
+                case = {"processes": n, "outputs": names, "force": True, "the run writing 'anno.db' starts after": "%.1f x the duration of a solitary run" % late,
+                        "n_genes": W.n_genes, "jobs": [job_case(W, j) for j in jobs]}
+                results = run_round(W, jobs)
+                cases += 1
+                distinct.add((n, late))
+                for j in jobs:
+                    if not os.path.isfile(j["final"]):
+                        fails.append({"case": dict(case, check="output_exists"), "expected": "%s exists after its run finished" % os.path.basename(j["final"]), "observed": sorted(os.listdir(d))})
+                check_jobs(W, [j for j in jobs if os.path.isfile(j["final"])], [r for j, r in zip(jobs, results) if os.path.isfile(j["final"])], case, fails)
+                check_tmp(W, (), case, fails)
+        fails.extend(W.selfcheck)
+    finally:
+        W.close()
+    U.bounded_result(
+        "C20.bounded.prefix_named_outputs",
+        "n concurrent create_db(force=True) runs whose output names extend one another's: every output exists afterwards and == the solitary run's",
+        "3 / 6 processes x the prefix-named run starting 0.5 / 1.5 / 3 solitary durations after the others (2 gene models, %d genes)" % W.n_genes,
+        cases, fails, distinct=len(distinct))
+
+
 UNITS = [
+    ("bounded.prefix_named_outputs", unit_bounded_prefix_outputs),
     ("bounded.forked_after_parent_import", unit_bounded_warm_parent),
     ("bounded.concurrent_imports", unit_bounded_imports),
     ("bounded.forced_interleaving", unit_bounded_interleave),
